@@ -105,9 +105,7 @@ func runCase(c Case) (st stats, err error) {
 	}
 
 	var in io.Reader = bytes.NewReader(wire)
-	if c.SegKind != 0 {
-		in = &xport.SegReader{R: in, Sched: xport.Sched(c.SegKind, c.Seg)}
-	}
+	in = xport.Segment(in, c.SegKind, c.Seg)
 	out := &wsx.Sink{}
 	cfg := wsx.Config{ReadBuf: c.ReadBuf, WriteBuf: 512}
 	var conn *websocket.Conn
@@ -374,8 +372,8 @@ func genCase(t *rapid.T) Case {
 			}
 		}
 	}
-	c.SegKind = rapid.IntRange(0, 2).Draw(t, "segk")
-	if c.SegKind == 2 {
+	c.SegKind = rapid.IntRange(0, xport.SegKinds-1).Draw(t, "segk")
+	if c.SegKind == 2 || c.SegKind == 3 {
 		c.Seg = rapid.SliceOfN(rapid.IntRange(1, 30), 1, 6).Draw(t, "seg")
 	}
 	if rapid.IntRange(0, 3).Draw(t, "cutk") == 0 {
